@@ -390,7 +390,13 @@ class Facts:
                     raw = raw2
                     self.aliases.update(fa2)
                 if fa2:
-                    done_a = {fa2.get(h, h): [fa2.get(c, c) for c in cs] for h, cs in done_a.items()}
+                    def _ren(x):
+                        for n_, c_ in fa2.items():
+                            if x == n_ or x.startswith(n_ + "::"):
+                                return c_ + x[len(n_):]
+                        return x
+                    done_a = {_ren(h): [_ren(c) for c in cs] for h, cs in done_a.items()}
+                    rep_a = {_ren(k): _ren(v) for k, v in rep_a.items()}
                 self.inlined, self.absorbed, self.reparented = _inline.inline_new_helpers([d for _, d in raw], is_new, prior=done_a)
                 self.reparented.update(rep_a)
         self._is_async_helper = {b["path"]: bool(b.get("asyncness")) for _, d in raw for b in d["bodies"] if b["path"] in self.absorbed}
@@ -427,6 +433,21 @@ class Facts:
                 self.impls.append(i)
             for p in d["decl_only_fns"]:
                 self.decl_only.add(p)
+        # closures written inside a helper that was absorbed by its callers are closures of (the first of) those callers:
+        # the statement that builds them is in the caller's body now
+        for b in self.bodies.values():
+            par = b.parent
+            seen = 0
+            while par and par not in self.bodies and seen < 4:
+                seen += 1
+                if par in self.absorbed and self.inlined.get(par):
+                    par = self.inlined[par][0]
+                elif par.endswith("::{closure#0}") and par[: -len("::{closure#0}")] in self.absorbed and self.inlined.get(par[: -len("::{closure#0}")]):
+                    par = self.inlined[par[: -len("::{closure#0}")]][0]
+                else:
+                    break
+            if par != b.parent and par in self.bodies:
+                b.parent = par
         self._children = None
         # types the pinned tree does not have (a parameter bundle introduced by a refactor): the tracer looks through
         # their fields instead of stopping at them
@@ -637,6 +658,28 @@ def renamed_functions(raws, config=None):
             continue
         out[n] = m
         used_m.add(m)
+    # second tier: renamed *and* given another signature (parameters reordered or bundled): same crate and same enclosing
+    # module / type, the sets of callees agree closely, and nothing else comes near
+    pairs2 = []
+    for m in missing:
+        if m in used_m or not table[m]["callees"]:
+            continue
+        for n in new:
+            near = n.startswith(m.rsplit("::", 1)[0] + "::") or m.startswith(n.rsplit("::", 1)[0] + "::")   # free fn <-> method of a type of that module
+            if n in out or present[n][0] != table[m]["crate"] or not near:
+                continue
+            sc = sim(m, n)
+            if sc >= 0.6:
+                pairs2.append((sc, m, n))
+    pairs2.sort(reverse=True)
+    for sc, m, n in pairs2:
+        if m in used_m or n in out:
+            continue
+        rivals = [s_ for s_, m2, n2 in pairs2 if (m2 == m) != (n2 == n) and m2 not in used_m and n2 not in out]
+        if rivals and max(rivals) > sc - 0.2:
+            continue
+        out[n] = m
+        used_m.add(m)
     return out
 
 
@@ -737,27 +780,50 @@ def renamed_fields(raws):
                 if got != want and len(got) == len(want) and not got[0:1] == ["0"]:
                     out[(a["path"], vi)] = {i: w for i, (g, w) in enumerate(zip(got, want)) if g != w}
                     out[(a["path"], v["n"])] = out[(a["path"], vi)]
+                # enum variants that kept their place and payload types but got another name
+                wn = (e.get("variants") or [None] * (vi + 1))[vi] if vi < len(e.get("variants") or []) else None
+                if wn and a["kind"] == "Enum" and wn != v["n"]:
+                    out[("variant", a["path"], vi)] = (v["n"], wn)
     return out
 
 
 def _respell_fields(d, fal):
+    vren = {}   # (adt path, new variant name) -> recorded name
+    for k, v in fal.items():
+        if isinstance(k, tuple) and len(k) == 3 and k[0] == "variant":
+            vren[(k[1], v[0])] = v[1]
     for a in d["adts"]:
         for vi, v in enumerate(a["variants"]):
             m = fal.get((a["path"], vi))
             if m:
                 for i, w in m.items():
                     v["fields"][i]["n"] = w
+            if (a["path"], v["n"]) in vren:
+                v["n"] = vren[(a["path"], v["n"])]
     def walk(x):
         if isinstance(x, dict):
+            if isinstance(x.get("p"), list) and vren:
+                # `(.. as Variant).field`: the downcast carries only the variant's name, the field projection behind it the type
+                pr = x["p"]
+                for i, e in enumerate(pr[:-1]):
+                    nx = pr[i + 1]
+                    if isinstance(e, dict) and "d" in e and isinstance(nx, dict) and "o" in nx:
+                        head, _, var = nx["o"].rpartition("::")
+                        if (head, var) in vren and e["d"] == var:
+                            e["d"] = vren[(head, var)]
             if "f" in x and "o" in x and "n" in x:
                 o = x["o"]
                 m = fal.get((o, 0))
                 if m is None:
                     head, _, var = o.rpartition("::")
                     m = fal.get((head, var))
+                    if (head, var) in vren:
+                        x["o"] = head + "::" + vren[(head, var)]
                 if m and x["f"] in m:
                     x["n"] = m[x["f"]]
             elif x.get("ak") == "adt" and "fields" in x and "adt" in x:
+                if (x["adt"], x.get("variant")) in vren:
+                    x["variant"] = vren[(x["adt"], x["variant"])]
                 m = fal.get((x["adt"], x.get("vi", 0)))
                 if m and len(x["fields"]) > max(m):
                     for i, w in m.items():
